@@ -32,3 +32,70 @@ Proof.
     - apply IH. intros o' b' Hin; apply Hd; right; exact Hin. }
   rewrite Hfr by exact Hdisj. apply img_write_inside. exact Hi.
 Qed.
+
+(* ---------------------------------------------------------------- write-back cache *)
+Lemma cache_run_app cur dur a b :
+  cache_run cur dur (a ++ b) = cache_run (fst (cache_run cur dur a)) (snd (cache_run cur dur a)) b.
+Proof.
+  revert cur dur. induction a as [|e a IH]; intros cur dur; [reflexivity|].
+  destruct e; cbn [app cache_run]; apply IH.
+Qed.
+
+Lemma cache_run_cur cur dur evs : fst (cache_run cur dur evs) = apply_events cur evs.
+Proof. revert cur dur. induction evs as [|e evs IH]; intros cur dur; [reflexivity|]. destruct e; cbn [cache_run apply_events]; apply IH. Qed.
+
+(* what is durable is always the image after a prefix of the log (or the initial durable image when the log has no
+   flush yet): the power-cut model "every write after some point is lost" *)
+Theorem durable_is_prefix_image cur evs :
+  exists pre post, evs = pre ++ post /\ snd (cache_run cur cur evs) = apply_events cur pre.
+Proof.
+  assert (forall evs cur dur im0 done, cur = apply_events im0 done -> (exists p q, done = p ++ q /\ dur = apply_events im0 p) ->
+            exists pre post, done ++ evs = pre ++ post /\ snd (cache_run cur dur evs) = apply_events im0 pre) as H.
+  { induction evs0 as [|e evs0 IH]; intros cur0 dur im0 done Hc (p & q & Hd & Hdur).
+    - exists p, q. rewrite app_nil_r. split; [exact Hd|exact Hdur].
+    - destruct e as [o b|]; cbn [cache_run].
+      + destruct (IH (img_write cur0 o b) dur im0 (done ++ [DWrite o b])) as (pre & post & E & R).
+        * rewrite apply_app, <- Hc. reflexivity.
+        * exists p, (q ++ [DWrite o b]). split; [rewrite Hd, <- app_assoc; reflexivity|exact Hdur].
+        * exists pre, post. split; [rewrite <- E, <- app_assoc; reflexivity|exact R].
+      + destruct (IH cur0 cur0 im0 (done ++ [DFlush])) as (pre & post & E & R).
+        * rewrite apply_app, <- Hc. reflexivity.
+        * exists (done ++ [DFlush]), []. split; [rewrite app_nil_r; reflexivity|rewrite apply_app, <- Hc; reflexivity].
+        * exists pre, post. split; [rewrite <- E, <- app_assoc; reflexivity|exact R]. }
+  destruct (H evs cur cur cur [] eq_refl) as (pre & post & E & R).
+  - exists [], []. split; reflexivity.
+  - exists pre, post. split; [exact E|exact R].
+Qed.
+
+(* when flush (or drop: Drop for File calls flush) returns, everything written before it - the data writes of earlier
+   File::write calls, table updates, the entry itself - is durable: durable image = current image *)
+Theorem flush_makes_durable cur dur before dirty pos entry :
+  let r := cache_run cur dur (before ++ fst (file_flush dirty pos entry)) in
+  snd r = fst r /\ fst r = apply_events cur (before ++ fst (file_flush dirty pos entry)).
+Proof.
+  cbn zeta. split; [|apply cache_run_cur].
+  rewrite cache_run_app. unfold file_flush. cbn [fst]. destruct dirty; cbn [app cache_run fst snd]; reflexivity.
+Qed.
+
+(* and stays so through whatever comes later, as long as the later writes do not overlap the entry: the durable image
+   after any continuation still holds the flushed entry bytes *)
+Theorem flushed_entry_durable cur dur before pos entry later :
+  (forall o b, In (DWrite o b) later -> o + N.of_nat (length b) <= pos \/ pos + N.of_nat (length entry) <= o) ->
+  forall i, (i < length entry)%nat ->
+  img_get (snd (cache_run cur dur (before ++ fst (file_flush true pos entry) ++ later))) (pos + N.of_nat i) = nth i entry 0.
+Proof.
+  intros Hdisj i Hi. rewrite app_assoc, cache_run_app.
+  destruct (flush_makes_durable cur dur before true pos entry) as (Hd & Hc). cbn zeta in Hd, Hc. rewrite Hd.
+  set (im1 := fst (cache_run cur dur (before ++ fst (file_flush true pos entry)))) in *.
+  destruct (durable_is_prefix_image im1 later) as (pre & post & E & R). rewrite R.
+  assert (img_get im1 (pos + N.of_nat i) = nth i entry 0) as H1.
+  { rewrite Hc, apply_app. unfold file_flush; cbn [fst app apply_events]. apply img_write_inside. exact Hi. }
+  rewrite <- H1. clear H1 R.
+  assert (forall o b, In (DWrite o b) pre -> o + N.of_nat (length b) <= pos \/ pos + N.of_nat (length entry) <= o) as Hp.
+  { intros o b Hin. apply Hdisj. rewrite E. apply in_or_app. left. exact Hin. }
+  clear E Hdisj Hd Hc. generalize im1. clear im1. induction pre as [|e pre IH]; intros im1; [reflexivity|].
+  destruct e as [o b|]; cbn [apply_events].
+  - rewrite IH by (intros o' b' Hin; apply Hp; right; exact Hin).
+    apply img_write_outside. destruct (Hp o b (or_introl eq_refl)); lia.
+  - apply IH. intros o' b' Hin; apply Hp; right; exact Hin.
+Qed.
